@@ -44,8 +44,12 @@ rows = {'pa.Alpha': [{'id': 1, 'pa.Alpha.a': 'x', 'pa.Alpha.b': None, 'pa.Alpha.
                      {'id': 2, 'pa.Alpha.a': "it's", 'pa.Alpha.b': 7, 'pa.Alpha.c': 4}]}
 BAR = {'kind': 'SQLMutation', 'app': 'pa', 'tag': 'barrier'}
 
-save('F-C03-1_add_then_rename_field', 'F-C03-1', proj(('pa', alpha())),
+# X-C03-2 (formerly open finding F-C03-1, repaired): definitions rewritten in place
+save('X-C03-2_add_then_rename_field', 'X-C03-2', proj(('pa', alpha())),
      [add('Alpha', F('d', 'Char', max_length=20), 'x'), ren('Alpha', 'd', 'e')], rows)
+save('X-C03-2_rename_then_delete_field', 'X-C03-2', proj(('pa', alpha())),
+     [ren('Alpha', 'b', 'e'), {'kind': 'DeleteField', 'app': 'pa', 'model': 'Alpha', 'name': 'e'}],
+     rows)
 save('F-C03-2_initial_parameter_order', 'F-C03-2', proj(('pa', alpha())),
      [add('Alpha', F('d', 'Char', max_length=20), 'x'), chg('Alpha', 'b', 1, null=False)], rows)
 save('F-C03-3_db_index_false_in_rebuild', 'F-C03-3', proj(('pa', alpha())),
